@@ -2,8 +2,8 @@
 (* I->S: recorded generator runs validated against GenFile!Next.           *)
 (* A trace is [blind, events]; an event is a record with a `name` and the  *)
 (* fields its action needs:                                                *)
-(*   Start[ow, pre, n]  Skip  Open[target]  Write  Flush  Close  Crash     *)
-(*   End[raised]  Observe[cls, others]  Rerun                              *)
+(*   Start[ow, pre, dest, n]  Skip  Open[target]  Write  Flush  Close      *)
+(*   Crash[kind]  End[raised]  Observe[cls, others, dest]  Rerun           *)
 (* Many traces per TLC run: `tid` is chosen in TraceInit, `l` counts the   *)
 (* consumed events, register tid keeps the furthest l reached; a trace is  *)
 (* accepted iff all its events were consumed.  In a `blind` trace the I/O  *)
@@ -22,18 +22,18 @@ ASSUME \A t \in 1..Len(Traces) : TLCSet(t, 0)
 
 TraceInit == /\ tid \in 1..Len(Traces) /\ l = 0
              /\ Init
-             /\ file = Traces[tid].events[1].pre
+             /\ file = Traces[tid].events[1].pre /\ dest = Traces[tid].events[1].dest
 
 Step(e) ==
-  CASE e.name = "Start"   -> Start(e.ow, e.n) /\ e.pre = file
+  CASE e.name = "Start"   -> Start(e.ow, e.n) /\ e.pre = file /\ e.dest = dest
     [] e.name = "Skip"    -> Skip
     [] e.name = "Open"    -> Open(e.target)
     [] e.name = "Write"   -> Write
     [] e.name = "Flush"   -> Flush
     [] e.name = "Close"   -> Close
-    [] e.name = "Crash"   -> Crash
+    [] e.name = "Crash"   -> Crash(e.kind)
     [] e.name = "End"     -> End(e.raised)
-    [] e.name = "Observe" -> Observe(e.cls, e.others)
+    [] e.name = "Observe" -> Observe(e.cls, e.others, e.dest)
     [] e.name = "Rerun"   -> Rerun
     [] OTHER -> FALSE
 
